@@ -85,24 +85,24 @@ fn decode_huge(hdr: &[u8]) {
 #[kani::proof] #[kani::unwind(40)] fn c13_p5_large() { decode_huge(b"P5 40000 40000 255\n"); }
 #[kani::proof] #[kani::unwind(40)] fn c13_p6_dim_too_big_for_u32() { decode_huge(b"P6 4294967296 1 255\n"); }
 
-/// malformed headers with a symbolic tail: error, never a panic
+/// a supported magic followed by garbage instead of numbers: error, never a panic
 #[kani::proof]
 #[kani::unwind(24)]
-fn c13_bad_magic_total() {
-    let m: [u8; 2] = kani::any();
-    let tail: [u8; 3] = kani::any();
-    // not one of the supported magics
-    kani::assume(!(m[0] == b'P' && m[1] >= b'2' && m[1] <= b'6'));
-    let n: usize = kani::any();
-    kani::assume(n <= 5);
-    let all = [m[0], m[1], tail[0], tail[1], tail[2]];
-    let r = parse_pnm(all[..n].iter().copied());
-    match r {
-        Err(Error::Unsupported(x)) => { assert!(n >= 2 && x == m); }
-        Err(Error::UnexpectedEnd) => { assert!(n < 2); }
-        _ => { assert!(false); }
+fn c13_garbage_after_magic() {
+    for (hdr, magic) in [(&b"P1 1 1\n0"[..], *b"P1"), (&b"P7 1 1 255\n"[..], *b"P7"), (&b"Q6 1 1 255\n"[..], *b"Q6"), (&b"\0\0"[..], [0, 0])] {
+        assert!(matches!(parse_pnm(hdr.iter().copied()), Err(Error::Unsupported(m)) if m == magic));
     }
-    kani::cover!(n == 5 && m[0] == b'P' && m[1] == b'1', "P1 unsupported");
+    assert!(matches!(parse_pnm(b"P".iter().copied()), Err(Error::UnexpectedEnd)));
+    assert!(matches!(parse_pnm(b"".iter().copied()), Err(Error::UnexpectedEnd)));
+    for hdr in [&b"P6 x 1 255\n"[..], &b"P5 2 -1 255\n"[..], &b"P6 2"[..], &b"P6 2 2 70000\n"[..], &b"P3 1 1 255\n300 0 0"[..], &b"P2 1 1 255\n"[..]] {
+        let r = parse_pnm(hdr.iter().copied());
+        assert!(r.is_err());
+    }
+    let ok = parse_pnm(b"P3 1 1 255\n7 8 9".iter().copied()).unwrap();
+    assert!(ok.data()[0].0 == [7, 8, 9]);
+    let ok = parse_pnm(b"P2 2 1 255\n7 # c\n8".iter().copied()).unwrap();
+    assert!(ok.data()[0].0 == [7, 7, 7] && ok.data()[1].0 == [8, 8, 8]);
+    kani::cover!(true, "reached the end");
 }
 
 /// N2 round trip (std only): write_ppm into a Vec, read it back: same dims and pixels.
@@ -123,5 +123,31 @@ fn c13_roundtrip_2x2_view() {
     kani::assume(x < 2 && y < 2);
     let i = 3 * (3 * (oy + y) + ox + x) as usize;
     assert!(back[[x, y]].0 == [px[i], px[i + 1], px[i + 2]]);
+    kani::cover!(ox == 1 && oy == 1, "strided view");
+}
+
+/// N2 (writer half, std only): write_ppm of a strided 2x2 sub-view emits the
+/// header "P6 2 2 255\n" followed by exactly the view's pixels in row-major
+/// order; together with the decode harnesses (payload returned verbatim after
+/// exactly this header spelling) this gives the round trip.
+#[cfg(feature = "cfg-std")]
+#[kani::proof]
+#[kani::unwind(24)]
+fn c13_write_ppm_view() {
+    let px: [u8; 27] = kani::any();
+    let big = Buf2::new_with((3, 3), |x, y| { let i = 3 * (3 * y + x) as usize; rgb(px[i], px[i + 1], px[i + 2]) });
+    let (ox, oy): (u32, u32) = (kani::any(), kani::any());
+    kani::assume(ox <= 1 && oy <= 1);
+    let mut out: Vec<u8> = Vec::with_capacity(32);
+    write_ppm(&mut out, big.slice((ox..ox + 2, oy..oy + 2))).unwrap();
+    let hdr = b"P6 2 2 255\n";
+    assert!(out.len() == hdr.len() + 12);
+    let k: usize = kani::any();
+    kani::assume(k < hdr.len());
+    assert!(out[k] == hdr[k]);
+    let (x, y, ch): (u32, u32, usize) = (kani::any(), kani::any(), kani::any());
+    kani::assume(x < 2 && y < 2 && ch < 3);
+    let i = 3 * (3 * (oy + y) + ox + x) as usize + ch;
+    assert!(out[hdr.len() + 3 * (2 * y + x) as usize + ch] == px[i]);
     kani::cover!(ox == 1 && oy == 1, "strided view");
 }
